@@ -188,7 +188,7 @@ def base_case(rng, kind=None):
     x0 = np.round(rng.normal(size=n), 2)
     c = dict(kind=kind, n=n, m=m, oseed=int(rng.integers(1 << 30)), x0=x0.tolist(), x0_2d=False, h=0, prox=0, lh=ABSENT,
              xl=None, xu=None, bounds_none=True, proj=None, npt=ABSENT, rhobeg=ABSENT, rhoend=ABSENT,
-             maxfun=enc(int(rng.integers(6, 22))), up=None, noise=False, scaling=False, logging=bool(rng.random() < 0.5))
+             maxfun=enc(int(rng.integers(6, 16))), up=None, noise=False, scaling=False, logging=bool(rng.random() < 0.5))
     if kind in ("bounds", "scaled"):
         c["bounds_none"] = False
         c["xl"] = (x0 - np.round(rng.uniform(1.0, 3.0, size=n), 2)).tolist()
@@ -579,11 +579,22 @@ def random_combo(rng):
     return c
 
 
-def all_param_cases(ctx, suite, per_key_cats=None, kinds=None):
+BOUNDARY_KINDS = [["plain", "bounds", "scaled", "onesided"], ["reg"], ["noise"], ["proj"]]
+
+
+def all_param_cases(ctx, suite, per_key_cats=None, kinds=None, boundary_on_all_kinds=False):
+    """every key x every category; with boundary_on_all_kinds the accepted boundary values are tried on each family of
+    base problems (a boundary value typically only bites on the code path that reads the key)"""
     out = []
     for ki, key in enumerate(SPEC_KEYS):
         for ci, cat in enumerate(ALL_CATS):
             if per_key_cats is not None and cat not in per_key_cats:
+                continue
+            if boundary_on_all_kinds and cat in ("boundary-lower", "boundary-upper"):
+                for kk, ks in enumerate(BOUNDARY_KINDS):
+                    c = with_param(np.random.default_rng([ctx.seed, suite, ki, ci, kk]), key, cat, ks)
+                    if c is not None:
+                        out.append(c)
                 continue
             rng = np.random.default_rng([ctx.seed, suite, ki, ci])
             c = with_param(rng, key, cat, kinds)
@@ -794,7 +805,9 @@ def crash_signature(case, failure):
     if cul:
         if len(cul) == 1 and (cul[0], failure) in NAMED:
             return NAMED[(cul[0], failure)]
-        return "C07:boundary:%s:%s" % ("+".join(cul), failure)
+        # the exception class is not part of the signature: the same division by zero surfaces as ZeroDivisionError or as
+        # OverflowError (inf -> int) depending on whether a Python float or a NumPy scalar reaches it
+        return "C07:boundary:%s:%s" % ("+".join(cul), failure if failure == "nontermination" else "crash")
     return None
 
 
@@ -855,9 +868,10 @@ def check_result(soln, real, case, counter, expect):
     return None
 
 
+# quick tier: the categories whose solves are instantaneous (rejected inputs) plus in-range and boundary values;
+# `none` / `np-float64` / the remaining wrong-type variants are covered by the correspondence on every run and by the thorough search
 QUICK_CATS = ["in-range", "boundary-lower", "boundary-upper", "out-of-range-low", "out-of-range-high", "just-above-upper", "just-below-lower",
-              "wrong-type-str", "none", "nan", "int-for-float", "float-for-int", "bool-for-int", "in-range-true", "in-range-false", "int-for-bool",
-              "np-float64"]
+              "wrong-type-str", "nan", "int-for-float", "float-for-int", "bool-for-int", "in-range-true", "in-range-false", "int-for-bool"]
 
 
 def search_cases(ctx, round_):
@@ -866,7 +880,7 @@ def search_cases(ctx, round_):
     for mm in getattr(ctx, "_c07_mism", [])[:40]:
         cases.append(mm["case"])
     cases += arg_cases(np.random.default_rng([ctx.seed, 750 + round_]))
-    cases += all_param_cases(ctx, 760 + round_, per_key_cats=None if (ctx.thorough() or round_ > 0) else QUICK_CATS)
+    cases += all_param_cases(ctx, 760 + round_, per_key_cats=None if (ctx.thorough() or round_ > 0) else QUICK_CATS, boundary_on_all_kinds=True)
     for i in range(ctx.scale(60, 1500)):
         cases.append(random_combo(np.random.default_rng([ctx.seed, 770 + round_, i])))
     # projections with npt != n+1 / several sets (known limitation: RuntimeError in the initial directions)
